@@ -342,4 +342,69 @@ def readText (t : List Char) : Option Scalar :=
      | _ => none)
   | _ => if plainToken s then some (readPlain s) else none
 
+/-! ## references to environment variables in the file (`${NAME}`, `${NAME:=default}`)
+
+`yaml.go koanfFromYaml` (and `validator.go ValidateConfig`) hand the raw TEXT of the file to `envsubst.EvalEnv` before YAML
+reads it: a reference is replaced by the contents of the variable, character by character, wherever it stands – inside
+quotes too. So the quotes the operator writes around a reference (`password: "${PW}"`) are still there when YAML reads
+the line and decide what the contents are: a string. The model is the substitution as a scanner over the characters
+(fragment: `${NAME}`, `${NAME:=d}`, `${NAME=d}`, `${NAME:-d}`, `${NAME-d}` with a default made of letters, digits, `.`
+and `_`; every other use of `$` is outside the fragment, `none`). An unset variable has the empty contents
+(`os.Getenv`); a default stands in for empty contents. -/
+
+abbrev Vars := List (List Char × List Char)
+
+/-- the contents of the variable (`os.Getenv`: empty when it is not set) -/
+def Vars.contents (vs : Vars) (n : List Char) : List Char :=
+  match vs.lookup n with
+  | some v => v
+  | none => []
+
+def isNameChar (c : Char) : Bool := c.isAlphanum || c == '_'
+def isDefaultChar (c : Char) : Bool := c.isAlphanum || c == '_' || c == '.'
+
+/-- a variable name: not empty, does not start with a digit -/
+def nameOk (n : List Char) : Bool :=
+  match n with
+  | [] => false
+  | c :: r => !c.isDigit && isNameChar c && r.all isNameChar
+
+inductive RefState where
+  | text
+  | dollar
+  | name (acc : List Char)
+  | sep (name : List Char)
+  | dflt (name acc : List Char)
+
+/-- `envsubst.EvalEnv` on the modelled fragment -/
+def substGo (vs : Vars) : RefState → List Char → Option (List Char)
+  | .text, [] => some []
+  | .text, c :: r => if c == '$' then substGo vs .dollar r else (substGo vs .text r).map (c :: ·)
+  | .dollar, [] => none
+  | .dollar, c :: r => if c == '{' then substGo vs (.name []) r else none
+  | .name _, [] => none
+  | .name acc, c :: r =>
+    if isNameChar c then substGo vs (.name (c :: acc)) r
+    else if c == '}' then
+      (if nameOk acc.reverse then (substGo vs .text r).map (vs.contents acc.reverse ++ ·) else none)
+    else if c == ':' then substGo vs (.sep acc.reverse) r
+    else if c == '=' || c == '-' then substGo vs (.dflt acc.reverse []) r
+    else none
+  | .sep _, [] => none
+  | .sep n, c :: r => if c == '=' || c == '-' then substGo vs (.dflt n []) r else none
+  | .dflt _ _, [] => none
+  | .dflt n acc, c :: r =>
+    if isDefaultChar c then substGo vs (.dflt n (c :: acc)) r
+    else if c == '}' then
+      (if nameOk n then
+         (substGo vs .text r).map ((if (vs.contents n).isEmpty then acc.reverse else vs.contents n) ++ ·)
+       else none)
+    else none
+
+/-- what the file says after its references are resolved; `none`: a use of `$` outside the modelled fragment -/
+def substitute (vs : Vars) (t : List Char) : Option (List Char) := substGo vs .text t
+
+/-- what YAML reads at `key: text` of a file whose references are resolved first -/
+def readRefText (vs : Vars) (t : List Char) : Option Scalar := (substitute vs t).bind readText
+
 end Heimdall.Config
